@@ -2,6 +2,8 @@
 From Coq Require Import List String ZArith NArith Bool.
 Import ListNotations.
 Require Import GenTypes AdaptorModel AdaptorProofs gen.Tables.
+Local Open Scope string_scope.
+Local Open Scope list_scope.
 
 (* obligation over the regenerated parameter-passing modes: no adaptor takes a deduced pack by value *)
 Theorem C11_gen_modes_ok : modes_ok gen_hop_modes = true.
